@@ -157,6 +157,8 @@ def case_strategy():
                      gen_cfg.model_and_spec(force=['global_enc']),
                      gen_cfg.model_and_spec(force=['empty_itf', 'many_ports'], want_mixed=True),
                      gen_cfg.model_and_spec(force=['no_ports']),
+                     gen_cfg.model_and_spec(force=['deep_ns', 'same_name_siblings']),
+                     gen_cfg.model_and_spec(force=['deep_ns', 'ref_extern', 'prefix_ports'], want_mc=True),
                      gen_cfg.model_and_spec(force=['global_enc'], want_mc=True))
     return st.tuples(base, st.lists(st.integers(0, 20), min_size=3, max_size=10),
                      st.sampled_from([None, None, ['Other'], ['P', 'Q']])).map(
